@@ -345,6 +345,16 @@ func short(s string) string {
 }
 
 // fname is the key form of a function name.
+// fnameTop: the name of the declared function fn belongs to (a function literal belongs to the
+// function it is written in). Tables of per-function exceptions are keyed by it, so that moving
+// a statement into or out of a literal does not change which entry applies.
+func fnameTop(fn *ssa.Function) string {
+	for fn != nil && fn.Parent() != nil {
+		fn = fn.Parent()
+	}
+	return fname(fn)
+}
+
 func fname(fn *ssa.Function) string {
 	if fn == nil {
 		return "<nil>"
